@@ -181,19 +181,30 @@ func Run(cfg Config, body func()) *Execution {
 	// hand the token to the scheduler: the controller is not a thread
 	ex.running = nil
 	ex.schedule(nil)
-	wd := time.NewTimer(60 * time.Second)
+	// watchdog: the running thread must keep reaching scheduling points; only a full period without
+	// ANY progress (uninstrumented blocking, runaway loop) is an infrastructure error
+	wd := time.NewTicker(60 * time.Second)
 	defer wd.Stop()
-	select {
-	case <-ex.finished:
-	case <-wd.C:
-		fmt.Printf("INFRA-ERROR vsched watchdog: running thread made no scheduling call for 60s (uninstrumented blocking?)\n")
-		if ex.running != nil {
-			fmt.Printf("  running thread %s site %s\n", ex.running.id, ex.running.site)
+	lastSteps := -1
+wait:
+	for {
+		select {
+		case <-ex.finished:
+			break wait
+		case <-wd.C:
+			if ex.Steps != lastSteps {
+				lastSteps = ex.Steps
+				continue
+			}
+			fmt.Printf("INFRA-ERROR vsched watchdog: running thread made no scheduling call for 60s (uninstrumented blocking?)\n")
+			if ex.running != nil {
+				fmt.Printf("  running thread %s site %s\n", ex.running.id, ex.running.site)
+			}
+			buf := make([]byte, 1<<20)
+			n := runtime.Stack(buf, true)
+			os.Stdout.Write(buf[:n])
+			os.Exit(2)
 		}
-		buf := make([]byte, 1<<20)
-		n := runtime.Stack(buf, true)
-		os.Stdout.Write(buf[:n])
-		os.Exit(2)
 	}
 	// teardown: sequentially unwind every thread that is still parked
 	ex.dead = true
